@@ -740,6 +740,15 @@ def judge_fmatch(c, wd):
         got[it["name"]] = read_table(fn)
     if fails:
         return fails, errs
+    for it in c["interactions"]:
+        x, y = got[it["name"]]
+        if not (np.isfinite(x).all() and np.isfinite(y).all()) or len(x) == 0:
+            fails.append(("fmatch/%s/%s-ls/non-finite-output" % (fam, ls),
+                          "force table contains nan/inf or is empty",
+                          {"interaction": it["name"],
+                           "y": [str(v) for v in y[:6]]}))
+    if fails:
+        return fails, errs
     # the dump reader's calorie is not judged here (C20): one common factor
     # between the thermochemical (4.184) and the IT calorie (4.1868) is
     # fitted for the whole case and must lie in that band
